@@ -86,6 +86,14 @@ CHECKS["C12"] = (
     "DESIGN.md section 5 C12, section 3.5",
 )
 
+CHECKS["C13"] = (
+    "exploration",
+    "schedule exploration with history checkers: threads racing to force one delay / deliver to and deref one promise are serialised at statement granularity by the cooperative scheduler (virtual-time condition waits); body enter/exit events, deref values and realized? samples are checked against once-only / write-once-register / monotonicity oracles; futures run on the real executor with harness rendezvous events",
+    "Held on thousands of distinct interleavings of 2-4 threads (seeded random walks plus depth-first enumeration with <= 2 preemptions of one delay and one promise scenario, budget-capped) and hundreds of future runs (value/nil/exception bodies; deref before, during and after completion; racing derefs) under a 1 microsecond switch interval. Exploration.",
+    "Trusted: the history oracles; preemption assumed to matter only at statement boundaries of the instrumented code objects; a throwing delay body may be re-run or its exception cached.",
+    "DESIGN.md section 5 C13, section 3.5",
+)
+
 NOT_BUILT ="check not built yet in this session (design in DESIGN.md section 5); not claimed until its monitor exists and is quiet on the unchanged tree"
 
 
